@@ -56,6 +56,17 @@ def cards():
     return th, op
 
 
+def _float_cast(f, key):
+    """info_update[key] is assigned from float(...) in function f"""
+    for n in ast.walk(f.node):
+        if isinstance(n, ast.Assign) and len(n.targets) == 1 and isinstance(n.targets[0], ast.Subscript) \
+                and isinstance(n.targets[0].slice, ast.Constant) and n.targets[0].slice.value == key:
+            v = n.value
+            if not (isinstance(v, ast.Call) and isinstance(v.func, ast.Name) and v.func.id == "float"):
+                return False
+    return True
+
+
 def run(chk):
     src = load()
     chk.rule_text = "info ranges bound the written grids; alpha_s from the solver's couplings at (Q^2, nf); blocks == x * applied on the written grid"
@@ -143,7 +154,8 @@ def run(chk):
         eqv = lambda a, b: dag.is_zero_fp([dag.sub(dag.tonode(a), dag.tonode(b))], chk.seed, 1)[0]
         written = tgt if explicit else op.xgrid
         nxw = 2 if explicit else 3
-        evolgrid = [(Fraction(100), 5), (Fraction(4), 3), (Fraction(2500), 5), (Fraction(9), 4)]
+        # unsorted, several nf, and one scale (9) shared by two adjacent patches, as LHAPDF sub-grids may share their boundary
+        evolgrid = [(Fraction(100), 5), (Fraction(4), 3), (Fraction(2500), 5), (Fraction(9), 4), (Fraction(9), 3)]
         pids = list(pe.get_global("eko.basis_rotation", "flavor_basis_pids"))
 
         class Eko(Opaque):
@@ -184,15 +196,26 @@ def run(chk):
         chk.decide(isinstance(upd, dict) and eqv(upd.get("XMin", 0), wraw[0]) and eqv(upd.get("XMax", 0), wraw[nxw - 1]) and nmem == 2,
                    "info-ranges-bound-the-written-grids", fe.qname, f"{inst}: info built with update {upd} and {nmem} members; required the first/"
                    f"last point of the written grid and 2 members", where=fe.where, instance=inst, how="PE with mocks")
-        chk.decide([x[1] for x in applied] == ["A", "B"] and all(x[0] is eko and (x[2] is tgt if explicit else x[2] is None) for x in applied),
-                   "target-grid-is-honoured", fe.qname, f"{inst}: members applied as {[(x[1], x[2]) for x in applied]}", where=fe.where, instance=inst)
+        # apply_pdf interpolates by iterating over the target points (len(), `for x in targetgrid`): it needs the plain array of
+        # points, not the grid object
+        def plain_points(v):
+            return isinstance(v, (Arr, list, tuple)) and len(v) == 2 and all(eqv(a, b) for a, b in zip((v.flat() if isinstance(v, Arr) else v), tgt.raw.flat()))
+
+        chk.decide([x[1] for x in applied] == ["A", "B"] and all(x[0] is eko and (plain_points(x[2]) if explicit else x[2] is None) for x in applied),
+                   "target-grid-is-honoured", fe.qname, f"{inst}: members applied with target grid {[(x[1], type(x[2]).__name__) for x in applied]}; required: "
+                   f"every member, on the archive just read, with the plain array of the explicit target points (apply_pdf iterates over them) "
+                   f"or None", where=fe.where, instance=inst)
+        chk.decide(isinstance(upd, dict) and all(isinstance(upd.get(k), (float, int, Fraction)) or (isinstance(upd.get(k), dag.Node) and dag.as_const(upd.get(k)) is not None)
+                                                 for k in ("XMin", "XMax")) and _float_cast(fe, "XMin") and _float_cast(fe, "XMax"),
+                   "info-values-are-plain-numbers", fe.qname, f"{inst}: XMin/XMax handed to the info file are not cast to float: the info file is written "
+                   f"with a safe YAML dumper, which refuses NumPy scalars", where=fe.where, instance=inst)
         d = cap.get("dump")
         ok = d is not None and d[0] == "N" and d[1] == "INFO" and len(d[2]) == 2
         bad = []
         if ok:
             for mi, member in enumerate(("A", "B")):
                 blocks = d[2][mi]
-                want_patches = [(3, [Fraction(4)]), (4, [Fraction(9)]), (5, [Fraction(100), Fraction(2500)])]
+                want_patches = [(3, [Fraction(4), Fraction(9)]), (4, [Fraction(9)]), (5, [Fraction(100), Fraction(2500)])]
                 if len(blocks) != 3:
                     bad.append(f"{len(blocks)} blocks")
                     continue
